@@ -12,10 +12,10 @@ open Gd.Gs3.Spec (Plan Attempt Ending Stage faultyFaults wfPlan)
 def jc2mLeftover (c : Int) (packets : List Bytes) (stage : Stage) (cs : List Char) : List Delivery × List Bool :=
   cs.foldl (fun (acc : List Delivery × List Bool) ch =>
     let (d, f) :=
-      if ch == 'S' then ((Attempt.mk stage false).deliveriesAt c, (Attempt.mk stage false).faults)
-      else if ch == 'F' then ((Attempt.mk stage true).deliveriesAt c, (Attempt.mk stage true).faults)
-      else if ch == 'M' then ((Ending.malformed stage malformedDatagram).deliveriesAt c packets,
-        (Ending.malformed stage malformedDatagram).faults)
+      if ch == 'S' then ((Attempt.mk stage false []).deliveriesAt c, (Attempt.mk stage false []).faults)
+      else if ch == 'F' then ((Attempt.mk stage true []).deliveriesAt c, (Attempt.mk stage true []).faults)
+      else if ch == 'M' then ((Ending.malformed stage [] malformedDatagram).deliveriesAt c packets,
+        (Ending.malformed stage [] malformedDatagram).faults)
       else (Ending.valid.deliveriesAt c packets, Ending.valid.faults)
     (acc.1 ++ d, acc.2 ++ f)) ([], [])
 
@@ -28,9 +28,9 @@ def entryJc2mPlan (args : List String) : String :=
       let (cfg, st) := G.run gJc2mCase (seed * 1000003 + k)
       let port := 7777 + k % 3
       let stage : Stage := if unit == 0 then .handshake else .data
-      let (plan, left) := gs3PlanOfVector r stage vec.toList []
+      let (plan, left) := gs3PlanOfVector r stage 0 [] vec.toList []
       let (lq, lf) := jc2mLeftover cfg.challenge [Jc2m.Spec.dataPacket cfg st] stage left
-      let thm := Jc2m.Spec.wf cfg st && wfPlan r plan
+      let thm := Jc2m.Spec.wf cfg st && wfPlan r (Jc2m.Spec.pool cfg st) plan
       s!"jc2m {port} {r} {showDeliveries (Jc2m.Spec.faultyScript cfg st plan ++ lq)} f={showFaults (faultyFaults plan ++ lf)}"
         ++ " ## WANT " ++ showRes showJc2mResponse (Jc2m.Spec.faultyExpected st plan)
         ++ " ## SENT " ++ showSent (Jc2m.Spec.faultySends cfg plan)
